@@ -33,11 +33,30 @@
 (* (ReplayRejected), except the KES replay where no KES signature is        *)
 (* checked at all (no verifier, insecure mode).                             *)
 (*                                                                          *)
+(* Registration churn (the churn dimension).  The authenticator's state is  *)
+(* changed from outside in the middle of a history: Reg(p) / Unreg(p) (the  *)
+(* active pool set follows the stake distribution), the verifier being set, *)
+(* insecure mode being switched.  The op-cert counter floor cache[p] is a   *)
+(* property of the COLD KEY p, not of its registration: no such call        *)
+(* touches any floor (FloorIsOfColdKey); only an accepted message of p and  *)
+(* the explicit eviction of p's entry do.  Hence a pool that drops out of   *)
+(* the registered set and comes back still has its floor: a message with a  *)
+(* counter below one accepted before the churn is rejected                  *)
+(* (CounterFloorSurvivesChurn).  All but `registered` of the state is       *)
+(* hidden (seen only through later verdicts), so in cover mode every        *)
+(* state-changing transition is followed by PROBES of the state it leads    *)
+(* to: the messages with a good id and certificate (KES good or bad, every  *)
+(* pool and counter) that leave that state unchanged; their verdicts tell   *)
+(* floor, verifier and insecure flag apart (ProbesTellFloor).               *)
+(*                                                                          *)
 (* Behaviours for the replay on the real authenticator go to rows.ndjson:   *)
 (*   cover mode (VIEW hides the history): a "hist" row per generated        *)
-(*     state-changing transition (shortest access history + that step) and  *)
+(*     state-changing transition (shortest access history + that step +     *)
+(*     the probes of the state reached) and                                 *)
 (*     a "fan" row per distinct state (every call that leaves it unchanged);*)
-(*   hist mode: every history of exactly MaxLen calls (no VIEW);            *)
+(*   hist mode: every history of exactly MaxLen calls (no VIEW); with       *)
+(*     Faults = GenuineOnly and AdminOps = PoolAdmin these are the churn     *)
+(*     histories: genuine messages interleaved with Reg / Unreg / Evict;    *)
 (*   chain mode: per initial configuration Chains pseudo-random histories   *)
 (*     of MaxLen calls (every state has one successor, drawn by a small     *)
 (*     linear congruential generator seeded from the environment variable   *)
@@ -69,6 +88,7 @@ NoCtr == -1
 \* values for the CONSTANTS (substituted in the .cfg files)
 AllFaults    == BOOLEAN \X BOOLEAN \X BOOLEAN
 SingleFaults == {<<TRUE, TRUE, TRUE>>, <<FALSE, TRUE, TRUE>>, <<TRUE, FALSE, TRUE>>, <<TRUE, TRUE, FALSE>>}
+GenuineOnly  == {<<TRUE, TRUE, TRUE>>}
 AllRegs      == SUBSET Pools
 ExtremeRegs  == {{}, Pools}
 AllAdmin     == {"register", "unregister", "evict", "setverifier", "setinsecure"}
@@ -252,6 +272,52 @@ MonotoneLast ==
              /\ ~\E k \in (i + 1)..(j - 1) : h[k].c.op = "evict" /\ h[k].c.pool = h[i].c.pool)
             => h[i].c.ctr <= h[j].c.ctr
 
+\* the churn dimension, per state: the counter floors belong to the cold keys.  No call from outside but the
+\* eviction of p's entry changes any floor, and that one changes p's only; registration calls change the
+\* registration of their pool only, the verifier / insecure calls neither
+FloorIsOfColdKey ==
+    \A c \in AdminCalls :
+        LET o == Outcome(c) IN
+        /\ \A p \in Pools : (c.op = "evict" /\ c.pool = p) \/ o.cache[p] = cache[p]
+        /\ \A p \in Pools : (c.op \in {"register", "unregister"} /\ c.pool = p) \/ (p \in o.registered <=> p \in registered)
+        /\ (c.op \in {"register", "unregister", "evict"} => o.verifier = verifier /\ o.insecure = insecure)
+
+\* the churn dimension, along the history: a message of pool p whose counter is below one accepted earlier for p
+\* is rejected however often p was unregistered and registered again in between (and whatever happened to other
+\* pools, the verifier or the insecure flag); only the eviction of p's entry lifts the floor
+EvictOf(k, p) == h[k].c.op = "evict" /\ h[k].c.pool = p
+FloorAt(i, j) ==
+    (/\ i < j /\ Accepted(i) /\ h[j].c.op = "verify" /\ h[j].c.pool = h[i].c.pool
+     /\ h[j].c.ctr < h[i].c.ctr
+     /\ ~\E k \in (i + 1)..(j - 1) : EvictOf(k, h[i].c.pool))
+    => ~h[j].e.ok
+CounterFloorSurvivesChurn == \A i \in 1..Len(h), j \in 1..Len(h) : FloorAt(i, j)
+\* the same, for the last call only (every prefix of a history is a state too)
+CounterFloorSurvivesChurnLast == \A i \in 1..Len(h) : FloorAt(i, Len(h))
+\* the history has what the churn dimension is about: accepted / Unreg(p) / Reg(p) / a lower counter of p
+ChurnShape ==
+    \E i \in 1..Len(h) : Accepted(i) /\ LET p == h[i].c.pool IN
+        \E u \in (i + 1)..Len(h) : (h[u].c.op = "unregister" /\ h[u].c.pool = p) /\
+            \E r \in (u + 1)..Len(h) : (h[r].c.op = "register" /\ h[r].c.pool = p) /\
+                \E j \in (r + 1)..Len(h) :
+                    /\ Genuine(h[j].c) /\ h[j].c.pool = p /\ h[j].c.ctr < h[i].c.ctr
+                    /\ ~\E k \in (i + 1)..(j - 1) : EvictOf(k, p) \/ (Accepted(k) /\ h[k].c.pool = p)
+
+\* the probes of a state: messages with a good id and certificate that leave the authenticator unchanged
+ProbeCalls == {c \in VerifyCalls : c.id /\ c.cert /\ ~AuthMutates(Outcome(c))}
+\* they tell the hidden state apart: for a registered pool with a floor f > the least counter, the genuine
+\* message just below f is a probe and rejected, the one at f is a probe and accepted (with a verifier or in
+\* insecure mode)
+ProbesTellFloor ==
+    \A p \in registered :
+        (cache[p] # NoCtr /\ <<TRUE, TRUE, TRUE>> \in Faults) =>
+            LET at == Call("verify", p, TRUE, TRUE, TRUE, cache[p], FALSE) IN
+            /\ at \in ProbeCalls
+            /\ Outcome(at).ok = (verifier = "real" \/ insecure)
+            /\ \A c \in Counters : c < cache[p] =>
+                   LET below == Call("verify", p, TRUE, TRUE, TRUE, c, FALSE) IN
+                   below \in ProbeCalls /\ ~Outcome(below).ok
+
 \* the cache holds the last accepted counter since the last eviction
 CacheIsLastAccepted ==
     \A p \in Pools :
@@ -266,13 +332,15 @@ CacheIsLastAccepted ==
 File == "rows.ndjson"
 Write(row) == CSVWrite("%1$s", <<ToJson(row)>>, File)
 
+\* (a state constraint: evaluated in the state the transition leads to, so the probes are that state's)
 EmitStep ==
     (Mode = "cover" /\ Len(h) > 0 /\ h[Len(h)].e.mut)
-        => Write([kind |-> "hist", init |-> init, steps |-> h])
+        => Write([kind |-> "hist", init |-> init, steps |-> h, probe |-> {Entry(c) : c \in ProbeCalls}])
 
 FanOf == LET es == {Entry(c) : c \in Calls} IN {x \in es : ~x.e.mut}
 EmitFan ==
     Mode = "cover" => Write([kind |-> "fan", init |-> init, steps |-> h, fan |-> FanOf])
 
-EmitHist == (Mode # "cover" /\ Len(h) = MaxLen) => Write([kind |-> "hist", init |-> init, steps |-> h])
+\* (churn: the spec's mark that the history has the shape the churn dimension is about; the check counts them)
+EmitHist == (Mode # "cover" /\ Len(h) = MaxLen) => Write([kind |-> "hist", init |-> init, steps |-> h, churn |-> ChurnShape])
 ==========================================================================
